@@ -86,6 +86,8 @@ class C06(Prop):
             "damage": st.one_of(st.none(), st.none(), st.none(),
                                 st.tuples(st.integers(0, 9), st.integers(0, 4000), st.integers(1, 255)).map(list)),
             "seg": gen.segmentation(),
+            # an earlier connection in this process (same WebSocket object or another) and how it ended
+            "prelude": gen.prelude(),
         })
 
     def enumerations(self, tier):
